@@ -25,6 +25,9 @@ CLAIMED = {
     'C07': ('wiring', 'deterministic simulation: states argument of every callback vs projection of the model hierarchy through the independent resolver (exact shape)', '5/C07'),
     'C08': ('wiring', 'deterministic simulation: state refinement against model updaters folded in observed application order; update-object immutability probe', '5/C08'),
     'C15': ('wiring', 'deterministic simulation: state right after every construction vs model initial state (explicit values, defaults, glob children); Composite.initial_state/default_state vs resolver', '5/C15'),
+    'C09': ('struct', 'deterministic simulation: seeded structural histories by reactive actor parties; real hierarchy vs reference hierarchy after every applied update (values, shape, node identity)', '5/C09'),
+    'C10': ('struct', 'deterministic simulation: live-set bookkeeping over the event log, published composite vs store vs model, restart differential at quiescent points', '5/C10'),
+    'C11': ('struct', 'deterministic simulation: divider laws checked at every division of a seeded history (both outcomes of the random dividers), daughter independence via the frame condition', '5/C11'),
     'C12': ('kernel', 'deterministic simulation: recording emitter vs state snapshots and batch times; emit_step differential', '5/C12'),
 }
 
